@@ -194,6 +194,26 @@ pub enum Kind {
     NotIdle,
 }
 
+thread_local! {
+    /// further violations of the last failed drawing step: the first one of every other
+    /// (kind, speaks-about-the-clip) category in scan order, so that each check can pick the
+    /// clause it owns even when a clause owned by another check comes first
+    static OTHERS: std::cell::RefCell<Vec<StepViolation>> = std::cell::RefCell::new(Vec::new());
+}
+
+pub fn take_others() -> Vec<StepViolation> {
+    OTHERS.with(|o| std::mem::take(&mut *o.borrow_mut()))
+}
+
+fn category(v: &StepViolation) -> (u8, bool) {
+    let k = match v.kind {
+        Kind::OutsideChanged => 0,
+        Kind::WrongValue => 1,
+        _ => 2,
+    };
+    (k, v.clause.contains("clip") || v.detail.contains("clip coverage Some"))
+}
+
 #[derive(Clone, Debug)]
 pub struct StepViolation {
     pub kind: Kind,
@@ -273,6 +293,7 @@ fn buf_diff(name: &str, a: &[u32], b: &[u32]) -> Option<String> {
 pub fn check_step(before: &Snap, op: &Op, after: &Snap, clip_override: Option<([i32; 4], Option<&[u8]>)>) -> Result<StepStats, StepViolation> {
     let mut st = StepStats::default();
     let (w, h) = (before.w, before.h);
+    OTHERS.with(|o| o.borrow_mut().clear());
     if !after.idle {
         return Err(StepViolation { kind: Kind::NotIdle, clause: "rasterizer-idle-after-call".into(), detail: format!("after {} the rasteriser still holds edges or non-reset bounds", op.kind()) });
     }
@@ -330,6 +351,7 @@ pub fn check_step(before: &Snap, op: &Op, after: &Snap, clip_override: Option<([
         if ta.len() != tb.len() {
             return Err(StepViolation { kind: Kind::StateChanged, clause: "top-buffer-size".into(), detail: "top buffer changed size".into() });
         }
+        let mut found: Vec<StepViolation> = Vec::new();
         for ty in trect[1]..trect[3] {
             for tx in trect[0]..trect[2] {
                 let bi = ((ty - trect[1]) * tw + (tx - trect[0])) as usize;
@@ -358,11 +380,14 @@ pub fn check_step(before: &Snap, op: &Op, after: &Snap, clip_override: Option<([
                         } else {
                             "zero shape coverage"
                         };
-                        return Err(StepViolation {
+                        let v = StepViolation {
                             kind: Kind::OutsideChanged,
                             clause: format!("{}-{}", op.kind(), why.replace(' ', "-")),
                             detail: format!("pixel ({},{}) ({}) changed {:#010x} -> {:#010x}; mode {:?}", tx, ty, why, old, new, dm.mode),
-                        });
+                        };
+                        if !found.iter().any(|f| category(f) == category(&v)) {
+                            found.push(v);
+                        }
                     }
                     continue;
                 }
@@ -386,16 +411,24 @@ pub fn check_step(before: &Snap, op: &Op, after: &Snap, clip_override: Option<([
                 }
                 if new != adm[0] && new != adm[1] {
                     let clause = if m == 255 && c.map_or(true, |c| c == 255) { "full-coverage-is-exactly-blend" } else { "partial-coverage-interpolation" };
-                    return Err(StepViolation {
+                    let v = StepViolation {
                         kind: Kind::WrongValue,
                         clause: format!("{}-{}", op.kind(), clause),
                         detail: format!(
                             "pixel ({},{}): previous {:#010x}, source {:#010x}, coverage {}, clip coverage {:?}, mode {:?} -> observed {:#010x}, admissible {:#010x} / {:#010x}",
                             tx, ty, old, s, m, c, dm.mode, new, adm[0], adm[1]
                         ),
-                    });
+                    };
+                    if !found.iter().any(|f| category(f) == category(&v)) {
+                        found.push(v);
+                    }
                 }
             }
+        }
+        if !found.is_empty() {
+            let first = found.remove(0);
+            OTHERS.with(|o| *o.borrow_mut() = found);
+            return Err(first);
         }
         return Ok(st);
     }
